@@ -302,8 +302,11 @@ def run_bits(ctx, mode, prop):
     cmods, cgiven = load_corpus(prop)
     all_cases = []
     if cmods:
+        n_viol = len(ctx.violations)
         cc, n_bad, _ = evaluate(ctx, cmods, mode, "corpus", given=cgiven)
-        ctx.obligation("corpus: %d modules replayed, %d observations contradict the SPEC" % (len(cmods), n_bad), n_bad == 0)
+        ctx.obligation("corpus: %d modules replayed, %d observations contradict the SPEC%s"
+                       % (len(cmods), n_bad, " (all of them listed known findings)" if n_bad and len(ctx.violations) == n_viol else ""),
+                       len(ctx.violations) == n_viol)
         all_cases += cc
     mods = gen_bits.build_plan(ctx.rng, thorough=ctx.thorough(), kinds_per_triple=(2 if mode == "read" else 1))
     ctx.extra["modules"] = len(mods)
